@@ -43,7 +43,9 @@ FamC(NS, SK, K)  == {Mk(n, G2, ls, None, "nm", sk, 3, K) : n \in NS, sk \in SK, 
 Fields_quick == FamA({<<1, 1, 1>>, <<2, 1, 1>>, <<1, 2, 1>>, <<1, 1, 2>>, <<3, 2, 2>>, <<2, 3, 2>>}, {G1, G2}, 13)
                 \cup FamB(<<2, 2, 1>>, UM_quick, 13)
                 \cup FamC({<<3, 2, 2>>}, {1, 2}, 13)
-Fault_quick  == {Mk(<<1, 1, 1>>, G1, "s1", "A/m", "m", 0, 0, 13), Mk(<<2, 1, 1>>, G2, "p3", "A/m", "m", 0, 0, 13)}
+(* the third file has twelve values: room for a hole of the footer's length in both binary forms *)
+Fault_quick  == {Mk(<<1, 1, 1>>, G1, "s1", "A/m", "m", 0, 0, 13), Mk(<<2, 1, 1>>, G2, "p3", "A/m", "m", 0, 0, 13),
+                 Mk(<<2, 2, 1>>, G1, "p3", "A/m", "m", 0, 1, 13)}
 
 Fields_thorough == FamA({<<1, 1, 1>>, <<2, 1, 1>>, <<1, 2, 1>>, <<1, 1, 2>>, <<2, 2, 1>>, <<1, 2, 2>>, <<3, 2, 2>>, <<2, 3, 2>>,
                          <<2, 2, 3>>, <<4, 3, 2>>}, {G1, G2, G3}, 17)
@@ -51,6 +53,7 @@ Fields_thorough == FamA({<<1, 1, 1>>, <<2, 1, 1>>, <<1, 2, 1>>, <<1, 1, 2>>, <<2
                    \cup FamC({<<3, 2, 2>>, <<2, 2, 2>>}, {1, 2, 3}, 17)
 Fault_thorough  == {Mk(n, g, ls, "A/m", "m", 0, 0, 17) : n \in {<<1, 1, 1>>, <<2, 1, 1>>, <<1, 2, 1>>, <<1, 1, 2>>},
                                                           g \in {G1}, ls \in {"s1", "p3"}}
-                   \cup {Mk(<<2, 1, 1>>, G2, "p3", "A/m", "m", 0, 0, 17)}
+                   \cup {Mk(<<2, 1, 1>>, G2, "p3", "A/m", "m", 0, 0, 17), Mk(<<2, 2, 1>>, G1, "p3", "A/m", "m", 0, 0, 17),
+                         Mk(<<1, 2, 3>>, G1, "m4", "A/m", "m", 0, 1, 17)}
 HdrCuts_all == 0 .. 3
 =============================================================================
